@@ -520,6 +520,13 @@ impl Scenario for C13 {
                         b.push(Step::Offer { text: TextRef::Lit { text: ta.clone() }, faults: vec![TokFault::TextOverwriteBytes { at, ch }], reader: *bk, artifact, expect: Some(false), why: "C13:id-wrong-length-accepted:multi-byte character".into() });
                     }
                 }
+                // characters that are not shown (byte order mark, zero-width space, ...): in front, after
+                // the version tag, after the header, at the end
+                for ch in crate::faults::INVISIBLES {
+                    for at in [0usize, 2, 7, usize::MAX] {
+                        b.push(Step::Offer { text: TextRef::Lit { text: ta.clone() }, faults: vec![TokFault::TextInsert { at, ch }], reader: *bk, artifact, expect: Some(false), why: "C13:id-wrong-length-accepted:invisible character".into() });
+                    }
+                }
                 // longer texts whose surplus repeats characters of the text itself (what a decoder that
                 // reads its input in overlapping or re-started blocks would swallow)
                 for back in 1..=8usize {
@@ -1079,6 +1086,12 @@ impl Scenario for C09 {
             }
             for ch in [' ', '\n', '\t', '\r', '\u{0}', '\u{a0}', '=', '.', '+', '/'] {
                 for at in [0usize, 3, 9, 12, 40, usize::MAX] {
+                    offer(&mut b, t, vec![TokFault::TextInsert { at, ch }]);
+                }
+            }
+            // characters that are not shown: in front, after the version tag, after the header, at the end
+            for ch in crate::faults::INVISIBLES {
+                for at in [0usize, 2, 2 + art.header().len(), usize::MAX] {
                     offer(&mut b, t, vec![TokFault::TextInsert { at, ch }]);
                 }
             }
